@@ -7,5 +7,14 @@ claim("C01",
       "SET (NX/XX/GET), GET, MSET, MGET, DEL, INCR/DECR/INCRBY/DECRBY (incl. int64 overflow), RENAME (incl. onto itself), GETDEL, TYPE, FLUSHDB, STRLEN and APPEND are executed symbolically through the real dispatcher from an arbitrary pre-state of the keys they name and compared, reply and post-state, with a reference typed map; failed commands must leave the pre-state untouched; replies are decoded by a strict RESP parser so that CR/LF in stored values is covered.",
       "Bounds: 1..2 stored keys + 1 fresh key, values are opaque strings / 64-bit integers / one-element lists, one command per step (inductive over the dataset). Known findings (KNOWN_FINDINGS.json): numeric-looking strings are re-typed by AdaptType; GET on a list does not fail.",
       "DESIGN.md C01")
-for p in ["C02","C03","C04","C05","C06","C07","C08","C09","C10","C11","C12","C13","C16","C17","C18","C19","C20"]:
-    na(p, "not built yet: engine and first check exist (see DESIGN.md section 8); this entry is replaced when the property's harnesses run clean")
+claim("C14",
+      "HSET, HSETNX, HGET, HMGET, HLEN, HEXISTS, HSTRLEN, HGETALL, HKEYS, HVALS, HDEL, HINCRBY, HINCRBYFLOAT and HRANDFIELD are executed symbolically through the real dispatcher from an arbitrary stored hash (or absent / wrong-typed key) and compared, reply and post-state, with a reference field map; integer arithmetic is decided over 64-bit bit-vectors (overflow included), float arithmetic in the SMT FloatingPoint theory, random draws are symbolic.",
+      "Bounds: hashes of <= 2 fields (3 thorough), one command per step; replies compared as multisets where map order is unspecified. See evidence assumptions.",
+      "DESIGN.md C14-C17")
+
+# every property without a claim is listed as not applicable (yet) with its reason
+NA_REASONS = {}
+for n in range(1, 21):
+    p = "C%02d" % n
+    if p not in CLAIMS:
+        na(p, NA_REASONS.get(p, "not built yet: engine and first checks exist (see DESIGN.md section 8); this entry is replaced when the property's harnesses run clean"))
